@@ -2042,6 +2042,15 @@ class Interp:
                 return [("num", Num((None, 0.0), (None, 1.0)))]
             if f.id == "str":
                 return [("str",)]
+        if isinstance(f, ast.Attribute) and f.attr in ("ceil", "floor", "trunc") and isinstance(f.value, ast.Name) \
+                and f.value.id in ("math", "np", "numpy") and len(e.args) == 1:
+            n = self.num(e.args[0], env)
+            if n is None:
+                return [("num", n_top(unparse(e)[:40]))]
+            rnd = {"ceil": math.ceil, "floor": math.floor, "trunc": math.trunc}[f.attr]
+            lo = n.lo if n.lo[0] or math.isinf(n.lo[1]) else (None, float(rnd(n.lo[1])))
+            hi = n.hi if n.hi[0] or math.isinf(n.hi[1]) else (None, float(rnd(n.hi[1])))
+            return [("num", Num(lo, hi, n.why, n.unknown))]
         if isinstance(f, ast.Attribute) and f.attr == "get" and 1 <= len(e.args) <= 2:
             out = self._subscript(self.ev(f.value, env), e.args[0], env)
             out = [a for a in out if not (a[0] == "num" and a[1].unknown and "not in" in a[1].unknown[0])] or out
